@@ -46,6 +46,11 @@ pub mod prelude {
     }
     impl Key for Inc { fn key(&self) -> i64 { self.0 as i64 } }
 
+    // a small fieldless enum used as a niche-carrying payload
+    #[derive(Debug, Clone, Copy, PartialEq, Eq, PartialOrd, Ord, Hash, Default)]
+    pub enum Inner { #[default] A, B, C }
+    impl Key for Inner { fn key(&self) -> i64 { *self as i64 } }
+
     // ---------------------------------------------------------------- Tracked: provenance of clones
     thread_local! {
         pub static CLONES: Cell<u64> = Cell::new(0);
@@ -183,7 +188,7 @@ pub mod prelude {
     macro_rules! impls {
         ($t:ty : $($b:tt)+) => {{
             struct Probe<P: ?Sized>(::core::marker::PhantomData<P>);
-            trait Fallback { const YES: bool = false; }
+            #[allow(dead_code)] trait Fallback { const YES: bool = false; }
             impl<P: ?Sized> Fallback for Probe<P> {}
             #[allow(dead_code)]
             impl<P: ?Sized + $($b)+> Probe<P> { const YES: bool = true; }
